@@ -21,14 +21,18 @@ func (fc *FnCtx) mapKeySort(mt *types.Map) Sort {
 	return s
 }
 
+// map heaps are per Go map type: maps of different types can never alias (Burstall-style separation)
+func mapTypeName(mt *types.Map) string { return types.TypeString(canonType(mt), nil) }
+
 func (fc *FnCtx) mapP(st *State, mt *types.Map) (*Term, string) {
 	k := fc.mapKeySort(mt)
-	name := "MP:" + string(k)
+	name := "MP:" + mapTypeName(mt)
 	return fc.heap(st, name, ArrSort(SInt, ArrSort(k, SBool))), name
 }
 
-func (fc *FnCtx) mapC(st *State) (*Term, string) {
-	return fc.heap(st, "MC", ArrSort(SInt, SInt)), "MC"
+func (fc *FnCtx) mapCT(st *State, mt *types.Map) (*Term, string) {
+	name := "MC:" + mapTypeName(mt)
+	return fc.heap(st, name, ArrSort(SInt, SInt)), name
 }
 
 type mapVHeap struct {
@@ -42,11 +46,15 @@ func (fc *FnCtx) mapVs(st *State, mt *types.Map) []mapVHeap {
 	lay := fc.eng.ti.LayoutOf(mt.Elem())
 	var out []mapVHeap
 	for i, lf := range lay.Leaves {
-		name := fmt.Sprintf("MV:%s:%s", k, lf.Sort)
-		if len(lay.Leaves) > 1 {
-			name = fmt.Sprintf("MV:%s:%s#%d", k, lf.Sort, i)
+		name := fmt.Sprintf("MV:%s#%d", mapTypeName(mt), i)
+		_, existed := fc.initHeaps[name]
+		h := fc.heap(st, name, ArrSort(SInt, ArrSort(k, lf.Sort)))
+		if !existed {
+			if _, isInit := fc.initHeaps[name]; isInit && isRefInt(lf.Type) {
+				fc.wfRefIntFact(fc.initHeaps[name], fc.next0, true)
+			}
 		}
-		out = append(out, mapVHeap{name, fc.heap(st, name, ArrSort(SInt, ArrSort(k, lf.Sort))), lf.Sort})
+		out = append(out, mapVHeap{name, h, lf.Sort})
 	}
 	return out
 }
@@ -69,7 +77,11 @@ func (fc *FnCtx) mapGet(st *State, m *Term, mt *types.Map, k Val) Val {
 }
 
 func (fc *FnCtx) mapLen(st *State, m *Term, mt *types.Map) *Term {
-	c, _ := fc.mapC(st)
+	c, _ := fc.mapCT(st, mt)
+	if strings.Contains(m.S, "!b") {
+		// under a quantifier: no named constant, no cardinality facts
+		return Ite(Eq(m, IntLit(0)), IntLit(0), Select(c, m))
+	}
 	n := fc.sc.Define("maplen", Ite(Eq(m, IntLit(0)), IntLit(0), Select(c, m)))
 	// cardinality facts: n >= 0; n = 0 <=> no key present
 	p, _ := fc.mapP(st, mt)
@@ -86,12 +98,16 @@ func (fc *FnCtx) havocMap(st *State, m *Term, mt *types.Map) {
 	p, pn := fc.mapP(st, mt)
 	ks := fc.mapKeySort(mt)
 	fc.setHeap(st, pn, Store(p, m, fc.sc.Fresh("hvP", ArrSort(ks, SBool))))
-	for _, v := range fc.mapVs(st, mt) {
+	lay := fc.eng.ti.LayoutOf(mt.Elem())
+	for i, v := range fc.mapVs(st, mt) {
 		row := fc.sc.Fresh("hvV", ArrSort(ks, v.sort))
 		fc.wfHeapFact(row, fc.hvBound)
+		if isRefInt(lay.Leaves[i].Type) {
+			fc.wfRefIntFact(row, fc.hvBound, false)
+		}
 		fc.setHeap(st, v.name, Store(v.h, m, row))
 	}
-	c, cn := fc.mapC(st)
+	c, cn := fc.mapCT(st, mt)
 	fc.setHeap(st, cn, Store(c, m, fc.sc.Fresh("hvC", SInt)))
 }
 
@@ -101,7 +117,7 @@ func (fr *Frame) allocMap(st *State, mt *types.Map) *Term {
 	p, pn := fc.mapP(st, mt)
 	ks := fc.mapKeySort(mt)
 	fc.setHeap(st, pn, Store(p, obj, ConstArr(ArrSort(ks, SBool), TFalse)))
-	c, cn := fc.mapC(st)
+	c, cn := fc.mapCT(st, mt)
 	fc.setHeap(st, cn, Store(c, obj, IntLit(0)))
 	// make sure value heaps exist
 	fc.mapVs(st, mt)
@@ -153,7 +169,7 @@ func (fr *Frame) execMapUpdate(in *ssa.MapUpdate, st *State) {
 func (fc *FnCtx) mapStore(st *State, m *Term, mt *types.Map, k, v Val) {
 	p, pn := fc.mapP(st, mt)
 	had := Select(Select(p, m), k.T)
-	c, cn := fc.mapC(st)
+	c, cn := fc.mapCT(st, mt)
 	fc.setHeap(st, cn, Store(c, m, Add(Select(c, m), Ite(had, IntLit(0), IntLit(1)))))
 	fc.setHeap(st, pn, Store(p, m, Store(Select(p, m), k.T, TTrue)))
 	leaves := flatten(v, nil)
@@ -165,7 +181,7 @@ func (fc *FnCtx) mapStore(st *State, m *Term, mt *types.Map, k, v Val) {
 func (fc *FnCtx) mapDelete(st *State, m *Term, mt *types.Map, k Val) {
 	p, pn := fc.mapP(st, mt)
 	had := And(Ne(m, IntLit(0)), Select(Select(p, m), k.T))
-	c, cn := fc.mapC(st)
+	c, cn := fc.mapCT(st, mt)
 	fc.setHeap(st, cn, Store(c, m, Sub(Select(c, m), Ite(had, IntLit(1), IntLit(0)))))
 	fc.setHeap(st, pn, Store(p, m, Store(Select(p, m), k.T, TFalse)))
 }
@@ -187,7 +203,7 @@ func (fr *Frame) execRange(in *ssa.Range, st *State) {
 		// remember the key set and cardinality at the start of the iteration (for the count facts)
 		m := fr.val(in.X).T
 		p, _ := fc.mapP(st, xt)
-		c, _ := fc.mapC(st)
+		c, _ := fc.mapCT(st, xt)
 		fr.rangeStart[in] = [2]*Term{fc.sc.Define("row0", Select(p, m)), fc.sc.Define("card0", Ite(Eq(m, IntLit(0)), IntLit(0), Select(c, m)))}
 		fr.guardCheck(st, in, in.X, false)
 	default:
@@ -250,6 +266,10 @@ func isInvalid(t types.Type) bool {
 // checkRangeInsert: inserting a possibly-new key into a map that is being ranged over is rejected
 // (Go leaves it unspecified whether the new entry is visited).
 func (fr *Frame) checkRangeInsert(st *State, in ssa.Instruction, m *Term, k Val) {
+	var updT *types.Map
+	if mu, ok := in.(*ssa.MapUpdate); ok {
+		updT = mu.Map.Type().Underlying().(*types.Map)
+	}
 	// find active ranges (loops containing this instruction whose Range is over the same map value)
 	for _, l := range fr.loops {
 		if !l.blocks[in.Block()] {
@@ -267,6 +287,9 @@ func (fr *Frame) checkRangeInsert(st *State, in ssa.Instruction, m *Term, k Val)
 					continue
 				}
 				mt := rng.X.Type().Underlying().(*types.Map)
+				if updT != nil && mapTypeName(updT) != mapTypeName(mt) {
+					continue // maps of different types are different objects
+				}
 				p, _ := fr.fc.mapP(st, mt)
 				if p.Sort != ArrSort(SInt, ArrSort(k.T.Sort, SBool)) {
 					continue
@@ -310,3 +333,28 @@ func (fc *FnCtx) rheldSet(st *State) *Term {
 }
 
 func isMapHeap(name string) bool { return strings.HasPrefix(name, "M") }
+
+// isRefInt: Go reference types that are modelled as Int object ids
+func isRefInt(t types.Type) bool {
+	switch t.Underlying().(type) {
+	case *types.Map, *types.Chan:
+		return true
+	}
+	return false
+}
+
+// wfRefIntFact: all values of an Int-sorted heap / row that holds map or channel references denote allocated objects.
+func (fc *FnCtx) wfRefIntFact(h *Term, bound *Term, twoLevel bool) {
+	if bound == nil {
+		return
+	}
+	k1, inner := splitArr(h.Sort)
+	if twoLevel {
+		k2, _ := splitArr(inner)
+		read := fmt.Sprintf("(select (select %s a!q) b!q)", h.S)
+		fc.sc.Assert(mk(SBool, fmt.Sprintf("(forall ((a!q %s) (b!q %s)) (! (and (<= 0 %s) (< %s %s)) :pattern (%s)))", k1, k2, read, read, bound.S, read)))
+		return
+	}
+	read := fmt.Sprintf("(select %s a!q)", h.S)
+	fc.sc.Assert(mk(SBool, fmt.Sprintf("(forall ((a!q %s)) (! (and (<= 0 %s) (< %s %s)) :pattern (%s)))", k1, read, read, bound.S, read)))
+}
